@@ -375,7 +375,11 @@ package server
 //@ func (*LockManager).ProcessExecuteLockCommand
 //@   assumes forallref(c, protocol.LockCommand, implies(!fresh(c), c.Rcount == old(c.Rcount) && c.Flag == old(c.Flag) && c.TimeoutFlag == old(c.TimeoutFlag) && c.LockId == old(c.LockId)))
 //@   modifies protocol.LockCommand.*, protocol.LockDBState.KeyCount, protocol.LockDBState.SlowKeyCount, LockDB.freeLockManagerHead, LockDB.freeLockManagerTail, LockDB.managerGlockIndex, LockData.commandDatas, LockManager.fastKeyValue, LockManager.lockKey, LockManager.refCount, Lock.data, PriorityMutex.*, LockDBExecutor.*, LockDBExecutorTask.*, E_Pserver_LockDBExecutor, E_Pserver_LockDBExecutorTask, E_Pserver_LockManager, E_server_FastKeyValue, MH_mapLL16JbyteJPserver_LockManager, MV_mapLL16JbyteJPserver_LockManager, BinaryServerProtocol.*, TextServerProtocol.*, MemWaiterServerProtocol.*, ProxyServerProtocol.*, TransparencyBinaryServerProtocol.*, TransparencyTextServerProtocol.*, Stream.*, StreamWriterBuffer.*, StreamReaderBuffer.*, protocol.TextParser.*
+// C15/C11: undoing a POP puts the popped elements back where they were taken from, the head of the array: they are in
+// the list before the scan of the surviving elements starts (a refused request leaves the value unchanged)
 //@ func (*LockManager).ProcessRecoverLockData
+//@   at call NewLockManagerData assert C15.recover.shift-header,C11.recover.shift-header: implies(arg1 == protocol.LOCK_DATA_COMMAND_TYPE_SHIFT && len(currentData.data) >= 8, forall(k, 6, voffM(currentData), arg0[k] == currentData.data[k]))
+//@   loop#4 entry C15.recover.pop-head,C11.recover.pop-head: implies(!isnil(recoverValue), len(values) == len(astype(recoverValue, [][]byte)))
 //@   modifies LockData.*, LockManagerData.isAof, LockManager.currentData, Lock.data
 //@ func (*LockManager).ProcessAckLockData
 //@   modifies protocol.LockCommand.*, protocol.LockDBState.KeyCount, protocol.LockDBState.SlowKeyCount, LockDB.freeLockManagerHead, LockDB.freeLockManagerTail, LockDB.managerGlockIndex, LockData.*, LockManager.fastKeyValue, LockManager.lockKey, LockManager.refCount, Lock.data, PriorityMutex.*, LockDBExecutor.*, LockDBExecutorTask.*, E_Pserver_LockDBExecutor, E_Pserver_LockDBExecutorTask, E_Pserver_LockManager, E_server_FastKeyValue, MH_mapLL16JbyteJPserver_LockManager, MV_mapLL16JbyteJPserver_LockManager, BinaryServerProtocol.*, TextServerProtocol.*, MemWaiterServerProtocol.*, ProxyServerProtocol.*, TransparencyBinaryServerProtocol.*, TransparencyTextServerProtocol.*, Stream.*, StreamWriterBuffer.*, StreamReaderBuffer.*, protocol.TextParser.*
@@ -524,6 +528,7 @@ package server
 //@   at call PriorityMutex.Lock after assume sectionInv(self, lockManager) && lockManager.freeLocks != nil && sectionAssumeOnly(lockManager) && lock.manager == lockManager && implies(lock.ackCount != 0xff, lock.command != nil && lock.protocol != nil && lock.locked == 1)
 //@   at call ProxyServerProtocol.ProcessLockResultCommandLocked assert C11.ack.code: arg2 == ite(atsection(lock.expried) && atsection(lock.locked) != 0, ite(succed, protocol.RESULT_SUCCED, protocol.RESULT_ERROR), protocol.RESULT_LOCKED_ERROR) && arg1 == atsection(lock.command)
 //@   at call RemoveLock assert C11.ack.rollback: !succed && lockManager.locked == u32(atsection(lockManager.locked) - atsection(lock.locked)) && implies(atsection(lock.command.Flag)&0x20 != 0, calls(ProcessRecoverLockData) == 1)
+//@   at call ProxyServerProtocol.ProcessLockResultCommandLocked assert C03.ack.disarms-timeout,C01.ack.disarms-timeout,C11.ack.disarms-timeout: lock.timeouted || calls(FreeLock) >= 1
 //@   ensures C03.ack.once,C11.ack.once: calls(ProxyServerProtocol.ProcessLockResultCommandLocked) == ite(atsection(lock.ackCount) == 0xff, 0, 1)
 //@   ensures C11.ack.settled: implies(atsection(lock.ackCount) != 0xff && calls(wakeUpWaitLocks) == 0, lock.ackCount == 0xff)
 //@   ensures C04.ack.wake,C11.ack.wake: implies(calls(RemoveLock) >= 1, calls(wakeUpWaitLocks) >= 1)
